@@ -160,6 +160,9 @@ class Sched:
             self.fail("wall-limit")
 
     def _pick(self, runnable):
+        if hasattr(self.chooser, "pick_all"):          # sleep-set enumeration: sees every scheduling point, forced ones too
+            runnable.sort(key=lambda t: t.name)
+            return self.chooser.pick_all(runnable, self)
         if len(runnable) == 1:
             return runnable[0]
         runnable.sort(key=lambda t: t.name)
@@ -197,6 +200,8 @@ class Sched:
             self.fail("deadlock")
             self._unwind(me)
         nxt = self._pick(runnable)
+        if self.aborted:
+            self._unwind(me)
         if nxt is not me:
             self.cur = nxt
             nxt.sem.release()
@@ -229,6 +234,9 @@ class Sched:
             self._wake_main()
             return
         nxt = self._pick(runnable)
+        if self.aborted:
+            self._wake_main()
+            return
         self.cur = nxt
         nxt.sem.release()
 
@@ -490,7 +498,16 @@ def make_fakes(sched, real_process_line, real_thread_line):
 
             def body():
                 sched.act("wBegin", w=w)
-                real_process_line.run(child)           # REAL code: line.run() + exception capture + send
+                try:
+                    real_process_line.run(child)       # REAL code: line.run() + exception capture + send
+                except BaseException as e:
+                    if type(e).__name__ != "WorkerKilled":
+                        raise
+                    # the process was killed: nothing is reported through the pipe, the exit code is the signal's
+                    self._alive = False
+                    self.exitcode = -9
+                    sched.act("wKilled", w=w)
+                    return
                 ex, tb, po = pickle.loads(pickle.dumps(child._send.value))
                 self._exception, self._traceback, self._poisoned = ex, tb, po
                 self._alive = False
@@ -669,3 +686,100 @@ class PolicyChooser:
         t = self.rng.wchoice(ws)
         self.last = t
         return t
+
+
+# ------------------------------------------------------------------ sleep-set (partial-order) reduction
+def _lin(a):
+    return a.get("w") if a["a"] in ("wBegin", "wGet", "wPut", "wRaise", "wRetire", "wCallback") else None
+
+
+_LOCAL = ("wBegin", "wRaise", "wRetire")
+_TABLE = {("loadTake", "wPut"), ("loadTake", "wGet"), ("loadTake", "wCallback"), ("loadTake", "mEvent"),
+          ("loadPut", "wPut"), ("loadPut", "wCallback"), ("loadPut", "cGet"), ("loadPut", "mEvent"),
+          ("wGet", "cGet"), ("wGet", "mEvent"), ("wPut", "mEvent")}
+_TABLE_NE = {("wGet", "wPut"), ("wGet", "wCallback")}        # independent when on different lineages
+
+
+def _indep1(a, b):
+    if a["a"] in _LOCAL and _lin(b) != _lin(a):
+        return True
+    k = (a["a"], b["a"])
+    if k in _TABLE:
+        return True
+    return k in _TABLE_NE and a.get("w") != b.get("w")
+
+
+def indep(a, b):
+    """Python copy of `Coba.C08.indep` (Model/C08.lean; soundness = theorem `step_comm`); cross-checked against the
+    Lean driver on the pairs met during an enumeration"""
+    return _indep1(a, b) or _indep1(b, a)
+
+
+def seg_indep(s1, s2):
+    """two scheduling segments (what a thread does between two yield points) are independent when every pair of their
+    actions is; a segment without a model action, or with a step the model does not have, is treated as dependent"""
+    if not s1 or not s2:
+        return False
+    return all(indep(a, b) for a in s1 for b in s2)
+
+
+class PorPruned(Exception):
+    pass
+
+
+class PorChooser:
+    """stateless depth-first enumeration with sleep sets: one frame per scheduling point (forced ones included);
+    a thread sleeps at a point when the schedules starting with it there are already covered by an explored sibling and
+    everything executed since is independent of its pending segment"""
+
+    def __init__(self, frames):
+        self.frames = frames          # shared with the enumeration loop; frames[:len(prefix)] are replayed
+        self.replay = len(frames)
+        self.d = 0
+        self.mark = 0
+        self.pairs = []               # (action, action, answer) met, for the cross-check with Lean
+        self.pruned = False
+
+    def flip(self, sched):
+        return 0
+
+    def _close_segment(self, sched):
+        seg = sched.log[self.mark:]
+        self.mark = len(sched.log)
+        if self.d > 0:
+            self.frames[self.d - 1]["seg"] = [dict(a) for a in seg]
+        return seg
+
+    def pick_all(self, runnable, sched):
+        seg = self._close_segment(sched)
+        names = [t.name for t in runnable]
+        if self.d < self.replay:
+            fr = self.frames[self.d]
+            name = fr["chosen"]
+            if name not in names:
+                raise RuntimeError("C08 POR: schedule replay diverged at depth %d (%s not in %s)" % (self.d, name, names))
+        else:
+            sleep = {}
+            if self.d > 0:
+                par = self.frames[self.d - 1]
+                cand = dict(par["sleep"])
+                cand.update(par["done"])
+                for nm, sg in cand.items():
+                    ok = seg_indep(sg, seg)
+                    if sg and seg and len(self.pairs) < 60:
+                        self.pairs.append((sg[0], seg[0], indep(sg[0], seg[0])))
+                    if ok:
+                        sleep[nm] = sg
+            free = [nm for nm in names if nm not in sleep]
+            fr = {"runnable": names, "sleep": sleep, "done": {}, "chosen": free[0] if free else None, "seg": None}
+            self.frames.append(fr)
+            if not free:
+                self.pruned = True
+                sched.fail("por-pruned")          # every continuation from here is equivalent to an explored one
+                return runnable[0]
+            name = fr["chosen"]
+        self.d += 1
+        return runnable[names.index(name)]
+
+    def finish(self, sched):
+        self._close_segment(sched)
